@@ -52,8 +52,10 @@ WALKS = {
         "C03": [["--runs", 350, "--steps", 40, "--origins", 1, "--maxreq", 5, "--h2prob", "0.7", "--cancelw", 3],
                 ["--runs", 100, "--steps", 40, "--origins", 2, "--maxreq", 6, "--h2prob", "0.6", "--droppool"]],
         "C04": [["--runs", 350, "--steps", 40, "--origins", 1, "--maxreq", 6, "--h2prob", "0.6"],
-                ["--runs", 25, "--steps", 45, "--origins", 1, "--maxreq", 7, "--h2prob", "0.15", "--tick", "--cancelw", 1]],
-        "C05": [["--runs", 60, "--steps", 40, "--origins", 1, "--maxreq", 6, "--h2prob", "0.2", "--tick", "--closew", 3]],
+                ["--runs", 15, "--steps", 45, "--origins", 1, "--maxreq", 7, "--h2prob", "0.15", "--tick", "--cancelw", 1],
+                ["--runs", 25, "--steps", 8, "--origins", 1, "--maxreq", 12, "--h2prob", "0.0", "--tick", "--aging", "--cancelw", 0]],
+        "C05": [["--runs", 40, "--steps", 40, "--origins", 1, "--maxreq", 6, "--h2prob", "0.2", "--tick", "--closew", 3],
+                ["--runs", 25, "--steps", 8, "--origins", 1, "--maxreq", 12, "--h2prob", "0.0", "--tick", "--aging", "--cancelw", 0]],
         "C06": [["--runs", 300, "--steps", 50, "--origins", 9, "--maxreq", 10, "--cancelw", 1]],
         "C14": [["--runs", 400, "--steps", 40, "--origins", 1, "--maxreq", 6, "--h2prob", "0.4"]],
         "C15": [["--runs", 300, "--steps", 50, "--origins", 2, "--maxreq", 8, "--h2prob", "0.1", "--cancelw", 1]],
